@@ -1860,7 +1860,7 @@ void dtw_expand_wps_slice(seq_t *wps, seq_t *full,
     if (rb == 0) {
         wpsi = 1 + cbs;
         for (ci=cbs; ci<MIN3(ces, p.width - 1, l2); ci++) {
-            full[wpsi-cbs] = wps[wpsi];
+            full[ci + 1 - cb] = wps[wpsi];
             wpsi++;
         }
     }
@@ -2693,7 +2693,7 @@ void dtw_expand_wps_slice_affinity(seq_t *wps, seq_t *full,
     if (rb == 0) {
         wpsi = 1 + cbs;
         for (ci=cbs; ci<MIN3(ces, p.width - 1, l2); ci++) {
-            full[wpsi-cbs] = wps[wpsi];
+            full[ci + 1 - cb] = wps[wpsi];
             wpsi++;
         }
     }
